@@ -33,7 +33,7 @@ ASSUMPTIONS = [
 ]
 COMPONENTS = {'real': tc.TAGGER_REAL + ['blacklisted_binning_contigs / blacklisted_binning / fill_range', 'bp_chunked', 'cut-site ownership filter in run_tagging_task'],
               'stub': tc.TAGGER_STUB}
-REQUIRED_PROBES = ['tiling_lifetime', 'molecule_straddles_tile_edge', 'site_on_tile_boundary', 'delivery_order_not_submission_order', 'multi_job_tiling', 'margin_larger_than_segment', 'unplaced_reads']
+REQUIRED_PROBES = ['fragment_at_contig_start', 'contig_with_only_placed_unmapped_reads', 'tiling_lifetime', 'molecule_straddles_tile_edge', 'site_on_tile_boundary', 'delivery_order_not_submission_order', 'multi_job_tiling', 'margin_larger_than_segment', 'unplaced_reads']
 
 
 def plan(tier):
@@ -64,6 +64,14 @@ def generate(seed, tier):
             maxL = max([ff['L'] for ff in frags if ff['ctg'] == f['ctg']] + [f['L']])
             if clen - maxL - 8 > maxL + 8:
                 f['site'] = min(max(k * seg + w.choice([0, -1, 1]), maxL + 8), clen - maxL - 8)
+    if w.random() < 0.15 and frags:
+        # a contig whose only records are flagged unmapped but carry a position on it
+        ci = w.randrange(len(genome))
+        for f in frags:
+            if f['ctg'] == ci:
+                f['defect'] = 'placed_unmapped'
+                f['extra'] = None
+                f['clip'] = 0
     longest = max([f['L'] for f in frags] + [1]) + 12
     params = {'method': method, 'encoded': w.random() < 0.7, 'lib': 'LIB'}
     s = st.schedule
@@ -104,6 +112,10 @@ def execute(case):
         in_bam = tc.write_input(d, case)
         if any(f.get('defect') == 'unplaced' for f in case['workload']):
             probe('unplaced_reads')
+        if any(f.get('defect') == 'placed_unmapped' for f in case['workload']):
+            probe('contig_with_only_placed_unmapped_reads')
+        if any(min(v for v in lib.full_coords(f) if v is not None) == 0 for f in case['workload']):
+            probe('fragment_at_contig_start')
         ref = None
         ref_name = None
         for mi, mode in enumerate(case['modes']):
@@ -197,6 +209,8 @@ def execute(case):
                         owner[(lib.identity_of(qname), mate)].add(ji)
                         if mode.get('api') == 'tiling' and ds is not None and refname is not None:
                             regs = [(c, s_, e_) for (c, s_, e_, fs, fe) in j['regions'] if c == refname and s_ is not None]
+                            # a site just outside the contig (MNase offset of a read touching a contig end) belongs to the first / last bin
+                            ds = min(max(ds, 0), dict(map(tuple, case['genome'])).get(refname, ds + 1) - 1)
                             if regs and not any(s_ <= ds < e_ for (c, s_, e_) in regs):
                                 V('written-by-non-owning-job', name[0], read=lib.identity_of(qname), site=ds, job_regions=regs[:4], **ctx)
                 multi = [k for k, v in owner.items() if len(v) > 1]
